@@ -28,7 +28,7 @@ ASSUMPTIONS = ["LP64: char 8, short 16, int 32, long/long long/Py_ssize_t/size_t
 
 # After the proposed fix proposed_fixes/C18-c_format_high_bits_not_rejected.diff is applied to /repo,
 # set this to "1": the model then uses the repaired range test (uchar_accepts true).
-UCHAR_FIXED = "0"
+UCHAR_FIXED = os.environ.get("C18_UCHAR_FIXED", "0")
 
 TYPES = [("signed char", "schar", 8, True), ("unsigned char", "uchar", 8, False),
          ("short", "short", 16, True), ("unsigned short", "ushort", 16, False),
@@ -117,6 +117,8 @@ def int_module(ct, nm, specs, dynspecs):
           "def k_r(%s v):" % ct, "    return f\"{v!r}\"",
           "def k_s8(%s v):" % ct, "    return f\"{v!s:>8}\"",
           "def k_a(%s v):" % ct, "    return f\"{v!a}\"",
+          "def k_s5(%s v):" % ct, "    return f\"{v!s:5}\"",
+          "def k_r05(%s v):" % ct, "    return f\"{v!r:05}\"",
           "def k_join(%s v):" % ct, "    return f\"[{v}|{v:x}]{v:05d}%{v:o}\" + f\"{v:X}\"",
           "def k_dyn(%s v, spec):" % ct, "    return f\"{v:{spec}}\"",
           "def k_dynw(%s v, int width):" % ct, "    return f\"{v:{width}d}\"",
@@ -128,7 +130,7 @@ def int_module(ct, nm, specs, dynspecs):
 
 KFORMS = {  # name -> python oracle
     "k_str": lambda v: str(v), "k_repr": lambda v: repr(v), "k_r": lambda v: f"{v!r}", "k_s8": lambda v: f"{v!s:>8}",
-    "k_a": lambda v: f"{v!a}", "k_join": lambda v: f"[{v}|{v:x}]{v:05d}%{v:o}" + f"{v:X}", "k_pd": lambda v: "%d" % (v,),
+    "k_a": lambda v: f"{v!a}", "k_s5": lambda v: f"{v!s:5}", "k_r05": lambda v: f"{v!r:05}", "k_join": lambda v: f"[{v}|{v:x}]{v:05d}%{v:o}" + f"{v:X}", "k_pd": lambda v: "%d" % (v,),
     "k_p5d": lambda v: "<%5d|%-5d|%05d>" % (v, v, v), "k_px": lambda v: "%x %X %o %s %r" % (v, v, v, v, v)}
 
 OBJ_SETUP = """
@@ -333,21 +335,21 @@ def run(ctx):
     quick = ctx.tier == "quick"
     rng = ctx.rng
     wd = ctx.workdir
-    nfast, ngram, nrand = (42, 14, 8) if quick else (110, 110, 40)
+    nfast, ngram, nrand = (36, 8, 8) if quick else (110, 110, 40)
     specs = fast_family(rng, nfast)
     while len(specs) < nfast + ngram:
         s = grammar_spec(rng)
         if s not in specs and "{" not in s and "}" not in s:
             specs.append(s)
     dynspecs = specs[:6] + specs[nfast:nfast + 6]
-    fspecs = float_specs(rng, 40 if quick else 140)
+    fspecs = float_specs(rng, 34 if quick else 140)
     ospecs = ["", "5", ">5", "<5", "^7", "05", "x", "d", ".2f", "s", ".2", "10.3", "*^9", "c", "b", "#o", "+", ",", "_x", "e", "%", "r", "!"]
-    while len(ospecs) < (40 if quick else 120):
+    while len(ospecs) < (30 if quick else 120):
         s = grammar_spec(rng)
         if s not in ospecs:
             ospecs.append(s)
     tstep = 3 if quick else 1
-    tmpls = gen_templates(rng, 96 if quick else 320)
+    tmpls = gen_templates(rng, 86 if quick else 320)
 
     # the compiler's own decision which specs take the C fast path
     pr = cybuild.run_script(PARSE_SCRIPT, wd, stdin_obj=specs, name="parse_specs.py")
@@ -360,6 +362,9 @@ def run(ctx):
     bspecs += [dict(name="c18_float", source=float_module(fspecs), workdir=wd),
                dict(name="c18_obj", source=obj_module(ospecs), workdir=wd),
                dict(name="c18_tmpl", source=tmpl_module(tmpls, tstep), workdir=wd)]
+    if quick:
+        for sp in bspecs:
+            sp["cflags"] = ["-O0"]
     built = cybuild.build_many(bspecs, jobs=12)
     for (so, err), sp in zip(built, bspecs):
         if err is not None:
@@ -409,7 +414,7 @@ def run(ctx):
                 vs = vs[:2] + vs[-1:]
             if t == "c" and wi > 251:
                 # (int)v < 0 reaches BuildFromAscii with a byte >= 0x80: PyUnicode_WRITE aborts; keep one such value
-                ab = [v for v in vs if v >= 0x200000 and ((v + 2 ** 31) % 2 ** 32) < 2 ** 31]
+                ab = [v for v in vs if v >= 0x200000 and ((v + 2 ** 31) % 2 ** 32) < 2 ** 31 and (v & 0xFF) >= 0x80]
                 vs = [v for v in vs if v not in ab] + ab[:1]
             for v in vs:
                 cases.append(["c18_%s.f%d" % (nm, i), [v]])
@@ -484,8 +489,7 @@ def run(ctx):
         inp = {"form": form, "type": nm, "value": v, "func": c[0], "args": c[1]}
         ctx.case("cint-forms/%s" % form.split(":")[0].split("(")[0], inp, sig=(nm, form, v))
         if got != exp:
-            kl = "cint_form_wrong"
-            m = re.match(r"(?:dyn:|format\(v,')(.*?)'?\)?$", form)
+            kl = "cint_conversion_char_ignored_with_spec" if form in ("k_s8", "k_s5", "k_r05") else "cint_form_wrong"
             nbad[kl] = nbad.get(kl, 0) + 1
             if nbad[kl] <= 3:
                 ctx.fail(kl, inp, got, exp)
